@@ -242,6 +242,29 @@ def durable_write_fns(facts):
             continue
         wa = [bb for bb, t in b.calls_to(WRITE_ALL)]
         fl = [bb for bb, t in b.calls_to(FLUSH)]
+        if len(wa) == 1 and not fl and b.name != "work":
+            # `f.write_all(bytes).and_then(|()| f.flush())` as the helper's whole result: the closure runs exactly when the write
+            # was Ok, and the helper's Ok is the flush's Ok
+            good = False
+            for bb, t in b.calls():
+                if (t["f"].get("q") or "").startswith("std::result::Result::") and t["f"].get("name") == "and_then" and len(t["args"]) == 2:
+                    r0 = peel(b.operand_expr(t["args"][0]), through_try=False)
+                    if not (r0.k == "call" and r0.bb == wa[0]):
+                        continue
+                    for x in walk(b.operand_expr(t["args"][1])):
+                        if x.k == "agg" and x.ak == "closure" and x.q:
+                            cb = facts.by_path.get(x.q)
+                            if cb is None:
+                                continue
+                            cfl = [b2 for b2, t2 in cb.calls_to(FLUSH)]
+                            rets = set(cb.return_blocks())
+                            if cfl and (0 in cfl or not (cb.reachable(0, avoid=set(cfl)) & rets)):
+                                rr = [peel(e) for _, _, e in assigns_to_return(b)]
+                                if rr and all(any(y.k == "call" and y.bb == bb for y in walk(r)) for r in rr):
+                                    good = True
+            if good:
+                out.add(b.q)
+            continue
         if len(wa) != 1 or len(fl) != 1 or b.name == "work":
             continue
         wsw, wok = ok_edge_of_result(b, wa[0])
